@@ -197,7 +197,8 @@ pub fn panic_finding(msg: &str, mode: &str) -> Finding {
             "borrow_conflict_panic",
             format!("a borrow-conflict panic escaped {}: {:?} (every harness system fetched only what it declared)", mode, msg),
         ),
-        k => Finding::new(&["C14"], "unexpected_panic", format!("unexpected panic ({:?}) escaped {}: {:?}", k, mode, msg)),
+        // whatever its wording: no harness system panics by itself in these dispatches
+        k => Finding::new(&["C01", "C07", "C14"], "unexpected_panic", format!("unexpected panic ({:?}) escaped {}: {:?} (no harness system panics by itself in this dispatch)", k, mode, msg)),
     }
 }
 
